@@ -73,7 +73,7 @@ def run(rep: Report, only=None) -> None:
     if only is None:
         rep.floor("cached lookups", len(nm.cached), FLOOR_CACHED)
 
-    mutators = {m: e for m, e in nm.effects.items() if e.writes}
+    mutators = {m: e for m, e in nm.effects.items() if e.writes and not e.helper}
     rep.analysed["mutators"] = {
         m: sorted(set().union(*[w.facets for w in e.writes])) for m, e in mutators.items()
     }
